@@ -106,6 +106,7 @@ theorem nwdaymask_marks_nth_weekdays (r : Rule) (y m : Int) (info : Info) (h : r
     (hf : r.freq = 1) (nwl : List (Int × Int)) (hne : nwl ≠ []) (hnw : r.bynweekday = some nwl)
     (hok : ∀ wn ∈ nwl, (0 ≤ wn.1 ∧ wn.1 ≤ 6) ∧ wn.2 ≠ 0) (month : Int) (hm1 : 1 ≤ month) (hm12 : month ≤ 12) :
     ∃ mask, buildNwdaymask r info.yearlen info.mrange info.wdaymask month = .ok (some mask) ∧
+      (mask.length : Int) = info.yearlen ∧
       ∀ j : Int, 0 ≤ j → j < info.yearlen →
         Py.getIdx mask j = .ok (if ∃ wn ∈ nwl, marks info (daysBeforeMonth y month)
             (daysBeforeMonth y month + daysInMonth y month - 1) j wn then 1 else 0) :=
